@@ -57,6 +57,7 @@ var propCfgs = map[string]propCfg{
 	"C16": {Profile: "crud", Level: "exploration", Quick: 6000, Thorough: 400000},
 	"C07": {Profile: "tx", Level: "fault_enumeration", Quick: 3000, Thorough: 200000},
 	"C08": {Profile: "tx", Level: "exploration", Quick: 4000, Thorough: 300000},
+	"C09": {Profile: "integrity", Level: "exploration", Quick: 5000, Thorough: 300000},
 }
 
 // ---------- worker ----------
